@@ -15,7 +15,7 @@ ITEM_HARNESS = {
     'types::SourceMap::lookup_token': ['lookup'], 'types::SourceMap::get_token': ['lookup', 'ordering'], 'types::TokenIter::next': ['lookup', 'ordering'],
     'types::Token::get_src_col': ['lookup'], 'types::SourceMap::tokens': ['lookup'],
     'types::SourceMap::new': ['ordering', 'lookup'], 'builder::SourceMapBuilder::into_sourcemap': ['ordering', 'builder_model'],
-    'builder::SourceMapBuilder::add_with_id': ['ordering', 'builder_model'], 'builder::SourceMapBuilder::add_raw': ['ordering'], 'builder::SourceMapBuilder::add': ['ordering'],
+    'builder::SourceMapBuilder::add_with_id': ['ordering', 'builder_model'], 'builder::SourceMapBuilder::add_raw': ['ordering'], 'builder::SourceMapBuilder::add': ['ordering', 'builder_model'],
     'builder::SourceMapBuilder::add_source_with_id': ['builder_model', 'rewrite'], 'builder::SourceMapBuilder::add_source': ['builder_model'], 'builder::SourceMapBuilder::add_name': ['builder_model'],
     'builder::SourceMapBuilder::set_source_contents': ['builder_model', 'rewrite'], 'builder::SourceMapBuilder::get_source_contents': ['builder_model'],
     'builder::SourceMapBuilder::add_token': ['rewrite'], 'builder::SourceMapBuilder::take_mapping': ['hermes_rewrite'],
